@@ -2,22 +2,31 @@
     survives a restart.  Only statements here; proofs live in Proofs/Dhcp4.v.
 
     [run c h empty_state] is the state after any history [h] (a list of
-    (clock reading, operation): DISCOVER, REQUEST, DECLINE, RELEASE, static
-    add / update / remove, time passing, restart) from the empty table. *)
+    (clock reading, addresses that answer the ICMP probe at that moment,
+    operation): DISCOVER, REQUEST, DECLINE, RELEASE, static add / update /
+    remove, time passing, restart) from the empty table.
+
+    [hist_ok h] (and [op_ok o] for one operation) is what is assumed of the
+    operations: DHCP messages carry 6-byte hardware addresses, and neither a
+    message nor a reservation uses the all-zero hardware address, which the
+    server keeps for block-listed addresses ([live m]: [m] is not all-zero).
+    Reservations may carry 6-, 8- or 20-byte addresses. *)
 From Coq Require Import List ZArith NArith Permutation.
 From AGH Require Import Base.Run Model.Dhcp4 Proofs.Dhcp4 Proofs.Dhcp4Names Proofs.Dhcp4Disk.
 Import ListNotations.
 Local Open Scope N_scope.
 
-(** The invariant, in every reachable state: addresses pairwise distinct;
-    clients pairwise distinct; every dynamic address inside the pool, not the
-    gateway, not a static lease's address; static addresses inside the subnet
-    and not the gateway; the address index, the leased-offset set and the
-    hostname index describe the list exactly; the file lists no address and
-    no client twice. *)
-Theorem C10_inv_reachable : forall c h, valid_conf c ->
+(** The invariant, in every reachable state: addresses pairwise distinct
+    (block-listed ones included); clients pairwise distinct; every dynamic
+    address (block-listed ones included) inside the pool, not the gateway,
+    not a static lease's address; static addresses inside the subnet and not
+    the gateway; the address index, the leased-offset set and the hostname
+    index describe the list exactly; the file lists no address and no client
+    twice; dynamic leases carry 6-byte hardware addresses, static ones what
+    ValidateMAC accepts. *)
+Theorem C10_inv_reachable : forall c h, valid_conf c -> hist_ok h ->
   let s := run c h empty_state in
-  NoDup (map l_ip (leases s)) /\ NoDup (map l_mac (leases s)) /\
+  NoDup (map l_ip (leases s)) /\ NoDup (filter live (map l_mac (leases s))) /\
   (forall l, In l (leases s) -> l_static l = false ->
      in_pool c (l_ip l) = true /\ l_ip l <> c_gw c /\
      forall r, In r (leases s) -> l_static r = true -> l_ip r <> l_ip l) /\
@@ -28,39 +37,52 @@ Theorem C10_inv_reachable : forall c h, valid_conf c ->
      In (c_start c + o) (map l_ip (leases s)) /\ c_start c + o <= c_end c) /\
   (forall h ip, hidx (ix s) h = Some ip <->
      h <> [] /\ exists l, In l (leases s) /\ l_ip l = ip /\ l_host l = h) /\
-  NoDup (map l_ip (disk s)) /\ NoDup (map l_mac (disk s)).
+  NoDup (map l_ip (disk s)) /\ NoDup (filter live (map l_mac (disk s))) /\
+  (forall l, In l (leases s) -> mac_ok l).
 Proof. exact inv_reachable_expanded. Qed.
 Print Assumptions C10_inv_reachable.
 
-(** Among the leases reported as active at any instant (static, or dynamic
-    and not expired): one holder per address and one lease per client. *)
-Theorem C10_one_holder : forall c h now,
+(** Among the leases reported as active at any instant (static, or dynamic,
+    not expired and not block-listed): one holder per address and one lease
+    per client. *)
+Theorem C10_one_holder : forall c h now, hist_ok h ->
   let s := run c h empty_state in
   forall l1 l2, In l1 (active now s) -> In l2 (active now s) ->
-  (l_ip l1 = l_ip l2 \/ l_mac l1 = l_mac l2) -> l1 = l2.
+  (l_ip l1 = l_ip l2 \/ (l_mac l1 = l_mac l2 /\ is_blocklisted (l_mac l1) = false)) -> l1 = l2.
 Proof. exact one_holder_reachable. Qed.
 Print Assumptions C10_one_holder.
 
 (** Any reply carrying an address to a client that has a static lease
     carries the reserved address. *)
-Theorem C10_reservation_respected : forall c h now o s' mt yi mac r,
+Theorem C10_reservation_respected : forall c h now busy o s' mt yi mac r, hist_ok h -> op_ok o ->
   let s := run c h empty_state in
-  step c s now o = (s', ROk mt yi) -> yi <> 0 -> op_mac o = Some mac ->
+  step c s now busy o = (s', ROk mt yi) -> yi <> 0 -> op_mac o = Some mac ->
   In r (leases s') -> l_static r = true -> l_mac r = mac -> yi = l_ip r.
 Proof. exact reservation_reachable. Qed.
 Print Assumptions C10_reservation_respected.
 
 (** DISCOVER from a client without a lease, while some pool address is in no
-    lease: OFFER (message type 2) of a pool address that was in no lease,
-    now reserved for that client. *)
-Theorem C10_offer_liveness : forall c h now mac ip,
+    lease (block-list entries are leases) and does not answer the probe:
+    OFFER (message type 2) of a pool address that was in no lease and does
+    not answer the probe, now reserved for that client. *)
+Theorem C10_offer_liveness : forall c h now busy mac ip, hist_ok h -> mac_len mac = 6 ->
   let s := run c h empty_state in
-  ~ In mac (map l_mac (leases s)) -> in_pool c ip = true -> ~ In ip (map l_ip (leases s)) ->
-  exists ip' s', step c s now (ODiscover mac) = (s', ROk 2 ip') /\
-    in_pool c ip' = true /\ ~ In ip' (map l_ip (leases s)) /\
+  ~ In mac (map l_mac (leases s)) ->
+  in_pool c ip = true -> ~ In ip (map l_ip (leases s)) -> mem_ip ip busy = false ->
+  exists ip' s', step c s now busy (ODiscover mac) = (s', ROk 2 ip') /\
+    in_pool c ip' = true /\ ~ In ip' (map l_ip (leases s)) /\ mem_ip ip' busy = false /\
     exists l, In l (leases s') /\ l_ip l = ip' /\ l_mac l = mac.
 Proof. exact liveness_reachable. Qed.
 Print Assumptions C10_offer_liveness.
+
+(** Address conflicts: whatever a DISCOVER from a client without a lease is
+    answered with, the address did not answer the probe. *)
+Theorem C10_conflict_not_offered : forall c h now busy mac s' mt yi, hist_ok h -> mac_len mac = 6 ->
+  let s := run c h empty_state in
+  ~ In mac (map l_mac (leases s)) ->
+  step c s now busy (ODiscover mac) = (s', ROk mt yi) -> mem_ip yi busy = false.
+Proof. exact discover_not_busy_reachable. Qed.
+Print Assumptions C10_conflict_not_offered.
 
 (** The file written by a store lists exactly the leases in memory, each
     once (expiry at whole seconds, none for static leases). *)
@@ -69,9 +91,10 @@ Proof. exact store_exact. Qed.
 Print Assumptions C10_store_exact.
 
 (** Persistence: after a store and a restart the table holds the same leases
-    (each once, expiry at whole seconds) and HostByIP / IPByHost answer the
+    (each once, expiry at whole seconds; block-list entries are kept with
+    their expiry like any dynamic lease) and HostByIP / IPByHost answer the
     same, in every reachable state. *)
-Theorem C10_persistence : forall c h,
+Theorem C10_persistence : forall c h, hist_ok h ->
   let s := run c h empty_state in
   let s' := restart c (store s) in
   Permutation (leases s') (map db_lease (leases s)) /\
@@ -90,7 +113,7 @@ Print Assumptions C10_names_stable.
 (** After every operation of any history (every prefix of a history is a
     history) the file lists exactly the leases in memory, each once: every
     path that changes the table ends in a store. *)
-Theorem C10_file_current : forall c h,
+Theorem C10_file_current : forall c h, hist_ok h ->
   let s := run c h empty_state in
   Permutation (disk s) (map db_lease (leases s)).
 Proof. exact file_current_reachable. Qed.
@@ -100,7 +123,7 @@ Print Assumptions C10_file_current.
     (UpdateStaticLease: old lease removed, addLease fails) cannot be taken
     from a state that satisfies the invariant. *)
 Theorem C10_update_no_late_failure : forall c mac ip host s fi found h s1,
-  FullInv c s ->
+  FullInv c s -> live mac = true ->
   find_lease mac (leases s) = Some (fi, found) ->
   validate_static c mac ip host s = Some h ->
   rm_lease c (l_ip found) (l_mac found) (l_host found) s = Some s1 ->
@@ -112,32 +135,36 @@ Print Assumptions C10_update_no_late_failure.
     through the static-lease operations: messages and the passing of time
     leave them exactly as they are in any state, a restart in any reachable
     state restores the same ones. *)
-Theorem C10_static_only_via_api : forall c h now o,
+Theorem C10_static_only_via_api : forall c h now busy o, hist_ok h ->
   let s := run c h empty_state in
   static_op o = false ->
-  Permutation (statics (leases (fst (step c s now o)))) (statics (leases s)).
+  Permutation (statics (leases (fst (step c s now busy o)))) (statics (leases s)).
 Proof. exact static_only_via_api. Qed.
 Print Assumptions C10_static_only_via_api.
 
-Theorem C10_messages_keep_statics : forall c s now o,
+Theorem C10_messages_keep_statics : forall c s now busy o,
   static_op o = false -> o <> ORestart ->
-  statics (leases (fst (step c s now o))) = statics (leases s).
+  statics (leases (fst (step c s now busy o))) = statics (leases s).
 Proof. exact message_keeps_statics. Qed.
 Print Assumptions C10_messages_keep_statics.
 
-(** Non-vacuity: a valid configuration and a history that reaches a table
-    with a static lease, two dynamic leases with names, a free pool address
-    and a client without a lease; the premises of the theorems above hold
-    there. *)
+(** Non-vacuity: a valid configuration and a history (the first pool address
+    answers the probe and is block-listed) that reaches a table with a
+    block-list entry, a static lease, two dynamic leases with names, a free
+    pool address that does not answer the probe and a client without a
+    lease; the premises of the theorems above hold there. *)
 Example C10_premises_satisfiable :
-  valid_conf example_conf /\
+  valid_conf example_conf /\ hist_ok example_history /\
+  mac_len (mac6 9) = 6 /\ is_blocklisted (mac6 9) = false /\
   let s := run example_conf example_history empty_state in
-  length (leases s) = 3%nat /\
+  length (leases s) = 4%nat /\
   NamesStable (leases s) /\
   (exists l, In l (leases s) /\ l_static l = true) /\
+  (exists l, In l (leases s) /\ is_blocklisted (l_mac l) = true) /\
   (exists l, In l (active example_now s) /\ l_static l = false) /\
-  ~ In 9 (map l_mac (leases s)) /\
-  (exists ip, in_pool example_conf ip = true /\ ~ In ip (map l_ip (leases s))) /\
-  (exists s' mt yi r, step example_conf s example_now (ODiscover 2) = (s', ROk mt yi) /\ yi <> 0 /\
-     In r (leases s') /\ l_static r = true /\ l_mac r = 2).
+  ~ In (mac6 9) (map l_mac (leases s)) /\
+  (exists ip, in_pool example_conf ip = true /\ ~ In ip (map l_ip (leases s)) /\
+              mem_ip ip [167772166] = false) /\
+  (exists s' mt yi r, step example_conf s example_now [] (ODiscover (mac6 2)) = (s', ROk mt yi) /\
+     yi <> 0 /\ In r (leases s') /\ l_static r = true /\ l_mac r = mac6 2).
 Proof. exact premises_satisfiable. Qed.
